@@ -365,6 +365,7 @@ impl<'a> Interpreter<'a> {
                                     Ok(callable) => stack.push(CelStackValue::BoundCall {
                                         callable,
                                         value: obj,
+                                        name: ident.clone(),
                                     }),
                                     Err(_) => {
                                         stack.push(
@@ -400,6 +401,7 @@ impl<'a> Interpreter<'a> {
                                         stack.push(CelStackValue::BoundCall {
                                             callable: self.callable_by_name(ident.as_str())?,
                                             value: obj,
+                                            name: ident.clone(),
                                         });
                                     } else {
                                         stack.push(
@@ -431,7 +433,9 @@ impl<'a> Interpreter<'a> {
                 }
                 ByteCode::Call(n_args) => {
                     match stack.pop_noresolve()? {
-                        CelStackValue::BoundCall { callable, value } => {
+                        CelStackValue::BoundCall {
+                            callable, value, ..
+                        } => {
                             let mut args = Vec::new();
 
                             for _ in 0..*n_args {
